@@ -491,12 +491,17 @@ def observe_names_permuted(ctx, fmt, call, positional, resorted, getobs=None):
 class RwmsSet:
     fmt = 'rwms'
 
-    def __init__(self, rng, tier, small=False, version=None, data_rng=None, scale=1.0):
+    def __init__(self, rng, tier, small=False, version=None, data_rng=None, scale=1.0, structure=None):
         self.version = version or str(rng.choice(['1.4', '1.6', '2.0']))
         self.fmt = 'rwms-' + self.version
         self.nrw = int(rng.integers(1, 4)) if not small else int(rng.integers(1, 3))
         self.nfct = [1] * self.nrw if self.version == '1.4' else [int(rng.integers(1, 4)) for _ in range(self.nrw)]
         self.nsrc = [int(rng.integers(1, 4)) for _ in range(self.nrw)]
+        if structure is not None:
+            # fixed (maximal) structure: several quantities per record, several factors and sources per quantity
+            self.nrw = len(structure[1])
+            self.nfct = [1] * self.nrw if self.version == '1.4' else list(structure[0])
+            self.nsrc = list(structure[1])
         self.reps = gen_reps(rng, 2 if small else None)
         self.prefix = str(rng.choice(['ensA', 'X_id2_', 'N200']))
         self.postfix = {'1.4': 'rwms', '1.6': 'rwms', '2.0': 'ms1'}[self.version]
@@ -3231,8 +3236,8 @@ class PbpSet(RwmsSet):
     """<psibar psi> files read by read_pbp: layout of an openQCD 1.6 ms1 file; reduction: product over the factors of the
     source average of the second block (no exponential)."""
 
-    def __init__(self, rng, tier, small=False, canonical=None):
-        RwmsSet.__init__(self, rng, tier, small=small, version='1.6')
+    def __init__(self, rng, tier, small=False, canonical=None, structure=None):
+        RwmsSet.__init__(self, rng, tier, small=small, version='1.6', structure=structure)
         self.fmt = 'pbp'
         self.postfix = 'pbp'
         self.prefix = str(rng.choice(['ensA', 'N200', 'pbp_']))
